@@ -1167,6 +1167,12 @@ var hugePrices = []string{
 	`{"price":"1` + strings.Repeat("0", 74) + `kstake"}`,
 	`{"price":"1` + strings.Repeat("0", 56) + `kstake"}`,
 	`{"price":"1` + strings.Repeat("0", 30) + `stake","promotions_by_volume":[{"volume":1,"discount":"0.999999999999999999"}]}`,
+	`{"price":"1` + strings.Repeat("0", 80) + `.0stake"}`, // a decimal beyond the integer range
+	`{"price":"99999999999999999999999999999999999999999999999999999999999999999999999999999.5stake"}`,
+	// promotion windows at the limits of the calendar
+	`{"price":"10stake","promotions_by_time":[{"start_time":"0000-01-01T00:00:00Z","end_time":"9999-12-31T23:59:59Z","discount":"0.5"}]}`,
+	`{"price":"10stake","promotions_by_time":[{"start_time":"0001-01-01T00:00:00Z","end_time":"9999-12-31T23:59:59.999999999Z","discount":"0.5"}]}`,
+	`{"price":"10stake","promotions_by_time":[{"start_time":"1677-09-21T00:12:43Z","end_time":"2262-04-11T23:47:17Z","discount":"0.5"}]}`,
 }
 
 // genBoundaryMsg: messages with boundary shapes - empty coin lists, maximal provider lists, zero and
@@ -1320,7 +1326,7 @@ func (g *GenState) genOfKind(t *rapid.T, kind string) Action {
 			svc = ModSvcName
 		}
 		prov := g.genProviderAddr(t)
-		owner := pick(t, "owner", Signers[:3])
+		owner := pick(t, "owner", Signers[:4])
 		if o, ok := s.Owner[prov]; ok {
 			owner = g.signerFor(t, o)
 		}
